@@ -21,12 +21,12 @@ Step ==
                [] e.ev = "SysConnect"       -> YConnect(y, e.k, e.key)
                [] e.ev = "SysArrive"        -> YArrive(y, e.k, e.key)
                [] e.ev = "SysTransportDrop" -> IF e.side = "s" THEN YServerDrop(y, e.k) ELSE YClientGone(y, e.k)
-               [] e.ev = "SysCall"          -> YCall(y, e.c, e.k, e.dl)
+               [] e.ev = "SysCall"          -> YCall(y, e.c, e.k, e.dl, e.tr, e.sampled)
                [] e.ev = "SysWireOut"       -> IF e.side = "c" /\ e.kind = "req" /\ e.ok THEN YSend(y, e.c, e.k, e.id)
                                                ELSE IF e.side = "c" /\ e.kind = "cancel" /\ e.ok THEN YCancelOut(y, e.k, e.id)
                                                ELSE IF e.side = "s" /\ e.ok THEN YServerOut(y, e.k, e.id)
                                                ELSE y
-               [] e.ev = "SysHandlerStart"  -> YHandlerStart(y, e.k, e.c, e.inc)
+               [] e.ev = "SysHandlerStart"  -> YHandlerStart(y, e.k, e.c, e.inc, e.tr, e.sampled)
                [] e.ev = "SysHandlerEnd"    -> YHandlerEnd(y, e.c, e.inc, e.finished)
                [] e.ev = "SysComplete"      -> YComplete(y, e.c)
                [] e.ev = "SysAbandon"       -> YAbandon(y, e.c)
@@ -50,7 +50,8 @@ Verdict_C06 == Report("Inv_C06sys", y.bad06 = {}, y.bad06)
 Verdict_C08 == Verdict_C01
 Verdict_C10 == Report("Inv_C10sys", y.bad10 = {}, y.bad10)
 Verdict_C12 == Report("Inv_C12sys", y.bad12 = {}, y.bad12)
+Verdict_C18 == Report("Inv_C18sys", y.bad18 = {}, y.bad18)
 Verdict_C13 == Report("Inv_C13sys", y.bad13 = {}, y.bad13)
-Verdict_All == Verdict_C01 /\ Verdict_C02 /\ Verdict_C03 /\ Verdict_C04 /\ Verdict_C05 /\ Verdict_C06 /\ Verdict_C10 /\ Verdict_C12 /\ Verdict_C13
+Verdict_All == Verdict_C01 /\ Verdict_C02 /\ Verdict_C03 /\ Verdict_C04 /\ Verdict_C05 /\ Verdict_C06 /\ Verdict_C10 /\ Verdict_C12 /\ Verdict_C13 /\ Verdict_C18
 Accepted == l = Len(Rec) + 1 => PrintT(<<"ACCEPTED", Len(Rec)>>)
 =============================================================================
